@@ -29,6 +29,8 @@ def _impl_case(case):
             except (ValueError, TypeError):
                 pass
     try:
+        if len(d) and (sum(hash(str(v)) for v in d.values()) + len(t)) % 5 == 0 and (t != 'sysex' or len(d['data']) < 300):
+            _used_elsewhere(mido, t, d)
         m = mido.Message(t, time=time, **d)
         bs = m.bytes()
         enc_line = '%s|%d|%s|1' % (' '.join(str(int(b)) for b in bs), len(m), m.hex())
@@ -56,7 +58,7 @@ def _impl_case(case):
             else:
                 # every separator the API documents, with the time argument; and what bytes() returned belongs to the
                 # caller: changing it must not change what any message encodes to afterwards
-                for sep in (' ', '', ':', '-', ', ', 'x', 'g', 'Z', '_', '.', 'q', 'h'):
+                for sep in (' ', '', ':', '-', ', ', 'x', 'g', 'Z', '_', '.', 'q', 'h', '|', '+', '*', '$', '^', '\\', '(', '[', '..', ' | ', '?'):
                     m5 = mido.Message.from_hex(m.hex(sep), time=time, sep=sep) if sep else None
                     if m5 is not None and (m5 != m or m5.time != time):
                         fail = f'from_hex(hex({sep!r}), time={time!r}, sep={sep!r}) = {vars(m5)} differs from {vars(m)}'
@@ -78,6 +80,49 @@ def _impl_case(case):
         enc_line = dec_line = 'err ' + type(e).__name__
         fail = f'raised {type(e).__name__}: {e}'
     return enc_line, dec_line, fail
+
+
+def _used_elsewhere(mido, t, d):
+    """The rest of the library handles equal messages before the codec is asked: saved to a MIDI file twice in a row (running
+    status) and with another message between, sent through ports, parsed from bytes, written as SYX, printed and parsed as
+    text, frozen, merged.  None of that may change what an equal message encodes to afterwards."""
+    import io
+    a = mido.Message(t, time=0, **d)
+    rt = t in msgs.REALTIME
+    try:
+        mid = mido.MidiFile(type=1)
+        tr = mido.MidiTrack()
+        mid.tracks.append(tr)
+        if not rt:
+            tr.extend([a.copy(time=1), a.copy(time=2), mido.Message('note_on', note=1, time=0), a.copy(time=0), a.copy(time=0)])
+        else:
+            tr.extend([mido.Message('note_on', note=5), a.copy()])      # refused by save(): real-time message
+        buf = io.BytesIO()
+        try:
+            mid.save(file=buf)
+            mido.MidiFile(file=io.BytesIO(buf.getvalue()))
+        except ValueError:
+            pass
+        mido.merge_tracks([tr, mido.MidiTrack([a.copy(time=3)])])
+        port = mido.ports.EchoPort() if hasattr(mido.ports, 'EchoPort') else None
+        if port is not None:
+            port.send(a)
+            port.send(a)
+            got = port.receive()
+            got.time = 9
+            port.close()
+        p = mido.Parser()
+        p.feed(a.bytes() + a.bytes())
+        for x in p:
+            x.time = 4
+        mido.Message.from_str(str(a))
+        mido.Message.from_dict(a.dict())
+        from mido.frozen import freeze_message
+        hash(freeze_message(a))
+    except Exception:
+        # what these subsystems do with the message is judged by their own checks; here only the after-effect on the
+        # codec matters
+        pass
 
 
 def _impl_chunk(cs):
